@@ -84,7 +84,7 @@ Print Assumptions each_visit_runs_statements_in_order.
 
 (** * the expression grammar: one rule per level, binary operators group left to right *)
 From WalModel Require Import WawkParse.
-From WalModel.proofs Require Import WawkParseProofs.
+From WalModel.proofs Require Import WawkParseProofs WawkLexProofs.
 
 (** every expression tree — numbers, symbols, strings, calls, !, the twelve binary operators, nested to any depth —
     written as tokens with parentheses only around a sub-expression of a lower level than its position requires
@@ -139,3 +139,23 @@ Example expression_text_example :
                                               (WNum (-3))) (WSym "x")) (WSym "y"))).
 Proof. vm_compute. reflexivity. Qed.
 Print Assumptions expression_text_example.
+
+(** the text of a tree — its tokens, one space after each — is read by lexer, parser and transformer as the tree:
+    for every tree whose symbols are base_symbols and whose strings have no quote, backslash or control character *)
+Theorem expression_text_means_the_tree : forall e, wf_tree e = true -> wawk_expr (expr_text e) = XOk (to_wal e).
+Proof. exact expression_text_reads_as_the_tree. Qed.
+Print Assumptions expression_text_means_the_tree.
+
+Theorem expression_text_is : forall e, expr_text e = render (fl 1 e).
+Proof. reflexivity. Qed.
+Print Assumptions expression_text_is.
+
+Theorem token_sequences_lex_back : forall ts b f,
+  seq_ok b ts = true -> (2 * List.length ts < f)%nat -> lex f b (render ts) = LOk ts.
+Proof. exact lex_render. Qed.
+Print Assumptions token_sequences_lex_back.
+
+Example a_text_of_a_tree :
+  expr_text (WBin BMul (WBin BAdd (WSym "a") (WNum (-2))) (WCall "f" [WStr "x y"; WNot (WSym "b")])) = "( a + -2 ) * f ( ""x y"" , ! b ) "%string.
+Proof. vm_compute. reflexivity. Qed.
+Print Assumptions a_text_of_a_tree.
